@@ -227,6 +227,31 @@ def split_lemmas(run):
     run.solver_s += q.wall
 
 
+def file_route_table(run):
+    """The property's own table, one listing line per form, through the WHOLE file route (a user's input is a file, not a
+    line): what the pattern side receives is the normal form, whatever the line ends of the file are. Concrete validation."""
+    from vlib import jasmapi
+
+    table = [
+        ("mov", "$0x10,%eax", ["0x10", "%eax"]), ("mov", "%rsp,%rbp", ["%rsp", "%rbp"]), ("mov", "-0x8(%rbp,%rax,4),%rcx", ["[%rbp+%rax*4+-0x8]", "%rcx"]),
+        ("lea", "(%rax,%rax,2),%rax", ["[%rax+%rax*2]", "%rax"]), ("mov", "0x8(,%rbx,8),%rdx", ["[+%rbx*8+0x8]", "%rdx"]), ("mov", "0x10(%rsp),%rdi", ["[%rsp+0x10]", "%rdi"]),
+        ("mov", "%rdi,(%rsi)", ["%rdi", "[%rsi]"]), ("call", "402000 <helper>", ["402000"]), ("jmp", "401010 <main+0x10>", ["401010"]), ("ret", "", [""]),
+        ("imul", "$0x3,0x4(%r12,%r12,8),%r9d", ["0x3", "[%r12+%r12*8+0x4]", "%r9d"]), ("push", "%rbp", ["%rbp"]),
+    ]
+    lines = ["", "prog:     file format elf64-x86-64", "", "Disassembly of section .text:", "", "0000000000401000 <main>:"]
+    want = ""
+    for i, (m, ops, norm) in enumerate(table):
+        a = format(0x401000 + 4 * i, "x")
+        lines.append(f"  {a}:\t48 89 e5             \t{(m + ' ').ljust(7) + ops if ops else m}")
+        want += f"{a}::{m},{','.join(norm)},|"
+    for nm, text in (("LF", "\n".join(lines) + "\n"), ("CRLF", "\r\n".join(lines) + "\r\n"), ("no_final_newline", "\n".join(lines))):
+        got = jasmapi.file_route_stream(text)
+        run.count("traces_validated_against_impl")
+        if got != want:
+            k = next((i for i, (x, y) in enumerate(zip(got, want)) if x != y), min(len(got), len(want)))
+            run.failure(f"file_route/{nm}", f"the property's operand table through the file route ({nm} line ends): stream differs at offset {k}: got {got[max(0, k - 30):k + 30]!r}, expected {want[max(0, k - 30):k + 30]!r}", {"kind": "c09_file", "variant": nm})
+
+
 def main():
     run = Run("C09", "model_checking", "CH+LX")
     t = tier()
@@ -234,6 +259,7 @@ def main():
     from checks import lxprops
 
     lxprops.sample_validation(run, "C09")   # whole lines through parse_line: operands == reference normal form
+    file_route_table(run)
     hs = harnesses(t)
     res = ch.run_harnesses(run, hs)
     conf = run.counts.get("ch:confirmed", 0)
@@ -261,6 +287,9 @@ def replay(rec):
         from checks import lxprops
 
         return lxprops.replay(rec)
+    if rec.get("kind") == "c09_file":
+        print("file-route table probe: re-run ./check C09;", rec.get("variant"))
+        return 1
     if rec.get("kind") == "split":
         from jasm.stringify_asm.implementations.gnu_objdump.asm_manual_parser_w_regex import LineParser
 
